@@ -7,13 +7,17 @@ import re
 
 FLAGGED = {
     "C19": {"StallAfterCloseRead"},
-    "C20": {"NoFlowErrorAfterCloseRead", "EndMovedByReadAfterCloseRead"},
-    "C32": {"SpuriousFinalSizeAfterCloseRead"},
+    "C20": {"NoFlowErrorAfterCloseRead", "EndMovedByLateRead"},
+    "C32": {"SpuriousFinalSizeAfterLateRead"},
 }
 
 
 def signature(prop, kind, scenario, detail):
     what = (detail or {}).get("what", "")
+    if kind == "crash":
+        # the test binary died in golang/net code: identified by the panic message, not by line numbers
+        m = re.search(r"(?:panic|fatal error): (.*?)  at ", what)
+        return "crash:" + (m.group(1).strip() if m else "unknown")
     m = re.search(r'invariant NoNewDeviation violated.*?state=\{"nd": "\{(.*?)\}"', what)
     if m:
         names = sorted(x.strip().strip('\\"') for x in m.group(1).split(","))
